@@ -33,6 +33,9 @@ enum Close {
     Frame,
     /// TCP connection dropped without a close frame
     Abrupt,
+    /// closing handshake whose close frame carries a status code and a reason (1000 normal, 1001 going away, 1008
+    /// policy, 1011 error, 1012 restart, 1013 try again, 4000 application defined)
+    Coded(u16),
 }
 
 const WATCHDOG: Duration = Duration::from_secs(60);
@@ -121,8 +124,12 @@ async fn serve(listener: TcpListener, msgs: Vec<Msg>, close: Close, collect_writ
         }
     }
     match close {
-        Close::Frame => {
-            let _ = ws.close(None).await;
+        Close::Frame | Close::Coded(_) => {
+            let frame = match close {
+                Close::Coded(code) => Some(tokio_tungstenite::tungstenite::protocol::CloseFrame { code: code.into(), reason: "relay says goodbye".into() }),
+                _ => None,
+            };
+            let _ = ws.close(frame).await;
             // drive the closing handshake until the client answers or goes away
             let _ = tokio::time::timeout(Duration::from_secs(5), async { while let Some(Ok(_)) = ws.next().await {} }).await;
         },
@@ -753,7 +760,8 @@ pub fn run(ctx: &mut Ctx) -> (&'static str, String, bool) {
         for rep in 0..reps {
             for compressed in MODES {
                 for style in 0..6u64 {
-                    for close in [Close::Frame, Close::Abrupt] {
+                    let coded = Close::Coded([1012u16, 1013, 1008, 1011, 4000, 1001, 1000][(rep + style as usize) % 7]);
+                    for close in [Close::Frame, Close::Abrupt, coded] {
                         jobs.push((rep, compressed, style, close, r.fork(jobs.len() as u64 + 1)));
                     }
                 }
@@ -790,7 +798,7 @@ pub fn run(ctx: &mut Ctx) -> (&'static str, String, bool) {
         let mut jobs: Vec<(Job, Rng)> = vec![];
         for rep in 0..if asan { 1 } else { ctx.tier.pick(2usize, 12usize) } {
             for compressed in MODES {
-                for close in [Close::Frame, Close::Abrupt] {
+                for close in [Close::Frame, Close::Abrupt, Close::Coded([1012u16, 1008, 4000, 1001][rep % 4])] {
                     for per in [1usize, 3, 50] {
                         jobs.push((Job::CloseRace(compressed, close, per), r.fork(7000 + jobs.len() as u64)));
                     }
@@ -840,7 +848,7 @@ pub fn run(ctx: &mut Ctx) -> (&'static str, String, bool) {
     ctx.assume("every session is ended by the server, so swallowed bytes show up as a short/different result sequence, never as a verdict by timeout (watchdog expiry = inconclusive)");
     (
         "exploration",
-        "frame streams (all kinds, unknown types, undecodable bodies, up to 3x the 6120-byte buffer) delivered as binary messages in six partition styles (one frame per message, several per message, split anywhere, > 1020-byte messages up to 64 KiB, 1-3 byte messages, boundary +-1) with text/ping/pong/empty messages interleaved x both size modes x {close frame, abrupt TCP close} x stream cut mid-frame; then 6 writes observed by the server; closure racing the last packets; 4000-12000 writes and a keep-alive answered under back-pressure (peer not reading, 4 KiB socket buffers) with the answering read cancelled in the flush; hundreds of writes cancelled under back-pressure followed by completed ones (one frame per message, in order, none lost); plus direct AsyncRead with caller buffers 1..2048; distinct = distinct (session, stream)".into(),
+        "frame streams (all kinds, unknown types, undecodable bodies, up to 3x the 6120-byte buffer) delivered as binary messages in six partition styles (one frame per message, several per message, split anywhere, > 1020-byte messages up to 64 KiB, 1-3 byte messages, boundary +-1) with text/ping/pong/empty messages interleaved x both size modes x {close frame without / with a status code and reason, abrupt TCP close} x stream cut mid-frame; then 6 writes observed by the server; closure racing the last packets; 4000-12000 writes and a keep-alive answered under back-pressure (peer not reading, 4 KiB socket buffers) with the answering read cancelled in the flush; hundreds of writes cancelled under back-pressure followed by completed ones (one frame per message, in order, none lost); plus direct AsyncRead with caller buffers 1..2048; distinct = distinct (session, stream)".into(),
         false,
     )
 }
